@@ -8,7 +8,7 @@ TMP=$(mktemp -d)
 git archive "$BASE" | tar -x -C "$TMP"
 # normalised copy of the scratch tree (undo the path rewriting of mkscratch.sh)
 S=$(mktemp -d)
-rsync -a --exclude .cache --exclude 'lean/.lake' --exclude 'harness/target' --exclude evidence "$D/verif/" "$S/"
+rsync -a --exclude .cache --exclude 'lean/.lake' --exclude 'harness/target' --exclude evidence --exclude 'seeded' "$D/verif/" "$S/"
 grep -rlI "$D" "$S" | while read f; do sed -i "s#$D/repo#/repo#g; s#$D/verif#/verif#g" "$f"; done
 (cd "$S" && find . -type f -not -path './.cache/*' -not -path './lean/.lake/*' -not -path './evidence/*' \
    -not -path './harness/target/*' -not -name Cargo.lock -not -name MANIFEST.json | sed 's#^\./##') | while read f; do
